@@ -510,3 +510,11 @@ PROPS["C03"]["suites"] += [{"name": "stream", "quick": 300, "thorough": 3000},
 # C08's "dropping a handle removes the resource at the next callback … a track is removed" clause for tracks inside
 # (possibly paused) track trees is exercised by the mixer's track-life suite.
 PROPS["C08"]["suites"] += [{"name": "mixtrk", "quick": 3000, "thorough": 60000}]
+
+# --- the whole-system twin (suite `syscore`): the mixer / renderer model instantiated with the REAL component models
+# (static sounds, the eight effects, clocks, LFO / tweener modulators) is compared bit for bit with kira on complete
+# scenes driven through the public API.  It serves C01 (what the device receives for whole scenes), C02 (signal flow
+# with real components) and C11 (real-code buffer-size invariance oracle with real components).
+PROPS["C01"]["suites"] += [{"name": "syscore", "quick": 1200, "thorough": 30000}]
+PROPS["C02"]["suites"] += [{"name": "syscore", "quick": 600, "thorough": 10000}]
+PROPS["C11"]["suites"] += [{"name": "syscore", "quick": 600, "thorough": 10000}]
